@@ -54,7 +54,10 @@ func (s *shardNodeReader) makeReader() (io.Reader, error) {
 		if err != nil {
 			return nil, err
 		}
-		if s.offset >= at+childSize {
+		// skip children that lie wholly before the offset; an empty child that sits
+		// exactly at the offset is not before it and is still opened, so that a full
+		// read (and with it the preload) requests every block of the file.
+		if s.offset >= at+childSize && !(childSize == 0 && s.offset == at) {
 			at += childSize
 			continue
 		}
